@@ -156,3 +156,10 @@ let () =
     | _ -> failwith "arity");
   register "table_interp_quiet" (function [t; evs; bits] ->
       vsteps (TableInterp.table_interp_quiet (table_of t) (strs evs) (gv_of bits)) | _ -> failwith "arity")
+
+
+let () =
+  register "sml_run" (function [t; evs; bits] ->
+      vsteps (SmlTT.sml_run (SmlTT.gen_sml true (table_of t)) (strs evs) (gv_of bits)) | _ -> failwith "arity");
+  register "camel_interp_quiet" (function [t; evs; bits] ->
+      vsteps (SmlTT.camel_steps (TableInterp.table_interp_quiet (table_of t) (strs evs) (gv_of bits))) | _ -> failwith "arity")
